@@ -19,6 +19,12 @@ structure Params where
   listToHllBelow : Nat := 8     -- `lgConfigK_ < 8` in CouponList::couponUpdate
   setMaxBelow    : Nat := 3     -- `lgConfigK_ - 3` in CouponHashSet::checkGrowOrPromote
   auxToken       : Nat := 15    -- AUX_TOKEN
+  /-- source shape of `hll_union::copy_or_downsample`: does it call `check_rebuild_kxq_cur_min()` on the down-sampled array?
+      (false = pinned code, defect D1; true = repaired) -/
+  unionDownsampleRebuilds : Bool := false
+  /-- source shape of `hll_union::reset()`: re-create the gadget at lg_max_k (true, repaired) or reset it at its current lg_k
+      (false = pinned code, defect D14) -/
+  unionResetToMaxK : Bool := false
   lgAuxArrInts   : List Nat := [0, 2, 2, 2, 2, 2, 2, 3, 3, 3, 4, 4, 5, 5, 6, 7, 8, 9, 10, 11, 12, 13, 14, 15, 16, 17, 18]
 deriving Repr
 
